@@ -84,6 +84,8 @@ def classify_de(body, bb, t):
         return ('DISC',)
     if sf == 'read_discriminant':
         return ('DISCRAW',)
+    if sf in ('BlockReader::has_more', 'BlockReader::expect_end'):
+        return ('MORE',)       # the block reader's own header protocol (judged by the BLOCKS rules), not a read of the cell
     if sf == 'BlockReader::new':
         ign = const_int(t['args'][1])
         return ('BLOCKS', ign)
